@@ -1,147 +1,8 @@
-(** Proofs/NNSSyntax.v — lemmas for C18: the scanners of Model/NNSSyntax.v
-    accept exactly the grammar of Spec/Grammar.v. *)
-From Verif Require Import Base.Prelude Model.NNSSyntax Spec.Grammar.
+(** Proofs/NNSSyntax.v — lemmas for C18, part 2 (names): the name scanner of
+    Model/NNSSyntax.v accepts exactly [valid_name] of Spec/Grammar.v. *)
+From Verif Require Import Base.Prelude Model.NNSSyntax Spec.Grammar Proofs.NNSSyntaxLib.
 From Coq Require Import ZifyBool ZifyNat ZifyN.
 Local Open Scope Z_scope.
-
-(* ------------------------------------------------------------------ *)
-(** * A. split / join algebra *)
-
-Lemma fields_split sep s : fields sep s = strings_split sep s.
-Proof. induction s as [|c r IH]; simpl; [reflexivity|]. rewrite IH. reflexivity. Qed.
-
-Lemma split_nonempty sep s : strings_split sep s <> [].
-Proof.
-  destruct s as [|c r]; simpl; [discriminate|].
-  destruct (c =? sep)%N; [discriminate|]. destruct (strings_split sep r); discriminate.
-Qed.
-
-Lemma split_length_pos sep s : (1 <= length (strings_split sep s))%nat.
-Proof. pose proof (split_nonempty sep s). destruct (strings_split sep s); simpl; [congruence|lia]. Qed.
-
-Lemma split_app sep x y :
-  strings_split sep (x ++ sep :: y) = strings_split sep x ++ strings_split sep y.
-Proof.
-  induction x as [|c x IH]; simpl.
-  - rewrite N.eqb_refl. reflexivity.
-  - destruct (c =? sep)%N; [rewrite IH; reflexivity|].
-    rewrite IH. pose proof (split_nonempty sep x) as Hne.
-    destruct (strings_split sep x) as [|f fs]; [congruence|]. reflexivity.
-Qed.
-
-Lemma split_sepfree_single sep l :
-  Forall (fun c => c <> sep) l -> strings_split sep l = [l].
-Proof.
-  induction 1 as [|c l Hc _ IH]; simpl; [reflexivity|].
-  destruct (N.eqb_spec c sep); [congruence|]. rewrite IH. reflexivity.
-Qed.
-
-Lemma split_join sep ls :
-  ls <> [] -> Forall (Forall (fun c => c <> sep)) ls -> strings_split sep (join sep ls) = ls.
-Proof.
-  induction ls as [|l ls IH]; [congruence|]. intros _ HF.
-  apply Forall_cons_1 in HF as [Hl HF].
-  destruct ls as [|l2 ls'].
-  - simpl. apply split_sepfree_single; assumption.
-  - change (join sep (l :: l2 :: ls')) with (l ++ sep :: join sep (l2 :: ls')).
-    rewrite split_app, IH by (assumption || discriminate).
-    rewrite split_sepfree_single by assumption. reflexivity.
-Qed.
-
-Lemma join_split sep s : join sep (strings_split sep s) = s.
-Proof.
-  induction s as [|c r IH]; [reflexivity|]. cbn [strings_split].
-  pose proof (split_nonempty sep r) as Hne.
-  destruct (N.eqb_spec c sep) as [->|Hc].
-  - destruct (strings_split sep r) as [|f fs]; [congruence|].
-    change (join sep ([] :: f :: fs)) with (sep :: join sep (f :: fs)). rewrite IH. reflexivity.
-  - destruct (strings_split sep r) as [|f fs]; [congruence|].
-    destruct fs as [|g fs'].
-    + simpl in *. congruence.
-    + change (join sep ((c :: f) :: g :: fs')) with (c :: join sep (f :: g :: fs')).
-      rewrite IH. reflexivity.
-Qed.
-
-Lemma split_sepfree sep s : Forall (Forall (fun c => c <> sep)) (strings_split sep s).
-Proof.
-  induction s as [|c r IH]; simpl; [repeat constructor|].
-  destruct (N.eqb_spec c sep) as [->|Hc].
-  - constructor; [constructor|assumption].
-  - destruct (strings_split sep r) as [|f fs]; [repeat constructor; assumption|].
-    apply Forall_cons_1 in IH as [Hf Hfs]. constructor; [constructor; assumption|assumption].
-Qed.
-
-Lemma join_app sep A B :
-  A <> [] -> B <> [] -> join sep (A ++ B) = join sep A ++ sep :: join sep B.
-Proof.
-  induction A as [|a A IH]; [congruence|]. intros _ HB.
-  destruct A as [|a2 A'].
-  - destruct B; [congruence|]. reflexivity.
-  - change (join sep ((a :: a2 :: A') ++ B)) with (a ++ sep :: join sep ((a2 :: A') ++ B)).
-    rewrite IH by (assumption || discriminate).
-    change (join sep (a :: a2 :: A')) with (a ++ sep :: join sep (a2 :: A')).
-    rewrite <- app_assoc. reflexivity.
-Qed.
-
-(** [length (join ls) + 1 = Σ (length l + 1)] for a non-empty list. *)
-Fixpoint sumlen1 (ls : list bytes) : nat :=
-  match ls with [] => 0 | l :: ls' => (length l + 1) + sumlen1 ls' end.
-Lemma join_length sep ls : ls <> [] -> (length (join sep ls) + 1 = sumlen1 ls)%nat.
-Proof.
-  induction ls as [|l ls IH]; [congruence|]. intros _.
-  destruct ls as [|l2 ls'].
-  - simpl. lia.
-  - change (join sep (l :: l2 :: ls')) with (l ++ sep :: join sep (l2 :: ls')).
-    specialize (IH ltac:(discriminate)).
-    change (sumlen1 (l :: l2 :: ls')) with ((length l + 1) + sumlen1 (l2 :: ls'))%nat.
-    rewrite app_length. cbn [length].
-    set (j := join sep (l2 :: ls')) in *. lia.
-Qed.
-
-Lemma sumlen1_bounds lo hi ls :
-  Forall (fun l => lo <= length l <= hi)%nat ls ->
-  ((lo + 1) * length ls <= sumlen1 ls <= (hi + 1) * length ls)%nat.
-Proof. induction 1 as [|l ls Hl _ IH]; simpl; nia. Qed.
-
-Lemma join_all sep (P : N -> Prop) ls :
-  P sep -> Forall (Forall P) ls -> Forall P (join sep ls).
-Proof.
-  intros Hs. induction 1 as [|l ls Hl _ IH]; simpl; [constructor|].
-  destruct ls; [assumption|]. apply Forall_app. split; [assumption|]. constructor; assumption.
-Qed.
-
-(* ------------------------------------------------------------------ *)
-(** * B. ASCII strings pass the natives' input filter *)
-
-Lemma utf8_ascii s : Forall (fun c => (c < 128)%N) s -> utf8_valid s = true.
-Proof.
-  induction 1 as [|c r Hc _ IH]; simpl; [reflexivity|].
-  destruct (N.ltb_spec c 128); [assumption|lia].
-Qed.
-
-Lemma to_limited_ok s :
-  Forall (fun c => (c < 128)%N) s -> len s <= 1024 -> to_limited_string s = Halt s.
-Proof.
-  intros Ha Hl. unfold to_limited_string. rewrite utf8_ascii by assumption. simpl.
-  unfold std_max_input_length. destruct (Z.ltb_spec 1024 (len s)); [lia|reflexivity].
-Qed.
-
-Lemma to_limited_inv s r : to_limited_string s = Halt r -> r = s.
-Proof.
-  unfold to_limited_string. destruct (negb (utf8_valid s)); [discriminate|].
-  destruct (std_max_input_length <? len s); [discriminate|]. congruence.
-Qed.
-
-Lemma std_split_ok s sep :
-  Forall (fun c => (c < 128)%N) s -> len s <= 1024 ->
-  std_string_split s sep = Halt (strings_split sep s).
-Proof. intros Ha Hl. unfold std_string_split. rewrite to_limited_ok by assumption. reflexivity. Qed.
-
-Lemma std_split_inv s sep fs : std_string_split s sep = Halt fs -> fs = strings_split sep s.
-Proof.
-  unfold std_string_split. destruct (to_limited_string s) as [r|] eqn:E; [|discriminate].
-  apply to_limited_inv in E. subst r. simpl. congruence.
-Qed.
 
 (* ------------------------------------------------------------------ *)
 (** * C. Names *)
@@ -170,20 +31,21 @@ Proof.
     intros HF. apply Forall_cons_1 in HF. assumption.
 Qed.
 
-Lemma checkFragment_unfold v isRoot :
+Lemma checkFragment_unfold (v : bytes) (isRoot : bool) :
   checkFragment v isRoot = true <->
   (1 <= len v <= (if isRoot then 16 else 63)) /\
   (if isRoot then byte_in 97 122 (nth 0 v 0%N) else isAlNum (nth 0 v 0%N)) = true /\
   forallb (fun x => (x =? 45)%N || isAlNum x) (firstn (length v - 2) (skipn 1 v)) = true /\
   isAlNum (nth (length v - 1) v 0%N) = true.
 Proof.
-  unfold checkFragment, maxRootLength, maxDomainNameFragmentLength.
+  unfold checkFragment, maxRootLength, maxDomainNameFragmentLength, len.
   set (B := forallb _ _). set (C := isAlNum (nth (length v - 1) v 0%N)).
+  set (n := Z.of_nat (length v)).
   destruct isRoot.
   - set (A := byte_in 97 122 _).
-    destruct ((len v =? 0) || (16 <? len v)) eqn:E; destruct A, B, C; simpl; lia.
+    destruct (Z.eqb_spec n 0), (Z.ltb_spec 16 n); destruct A, B, C; cbn; intuition (try lia; try discriminate).
   - set (A := isAlNum (nth 0 v 0%N)).
-    destruct ((len v =? 0) || (63 <? len v)) eqn:E; destruct A, B, C; simpl; lia.
+    destruct (Z.eqb_spec n 0), (Z.ltb_spec 63 n); destruct A, B, C; cbn; intuition (try lia; try discriminate).
 Qed.
 
 (** The three shapes of a fragment. *)
@@ -210,67 +72,36 @@ Proof.
   - cbn [length]. rewrite app_length. cbn [length]. lia.
 Qed.
 
-Lemma fragment_chars isRoot v :
-  ((if isRoot then byte_in 97 122 (nth 0 v 0%N) else isAlNum (nth 0 v 0%N)) = true /\
-   forallb (fun x => (x =? 45)%N || isAlNum x) (firstn (length v - 2) (skipn 1 v)) = true /\
-   isAlNum (nth (length v - 1) v 0%N) = true) <->
-  (v = [] /\ False) \/
-  (v <> [] /\ Forall label_char v /\ head v <> Some 45%N /\ last v <> Some 45%N /\
-   (isRoot = true -> exists c, head v = Some c /\ lower c)).
+Lemma some_neq (c x : N) : Some c <> Some x <-> c <> x.
+Proof. split; congruence. Qed.
+
+Lemma ex_some (c : N) (P : N -> Prop) : (exists c0, Some c = Some c0 /\ P c0) <-> P c.
+Proof. split; [intros (c0 & [= <-] & H); exact H|eauto]. Qed.
+
+(** The scanner on a fragment, in the vocabulary of the grammar. *)
+Lemma fragment_ok (isRoot : bool) (v : bytes) :
+  checkFragment v isRoot = true <->
+  valid_label v /\ (isRoot = true -> (length v <= 16)%nat /\ exists c, head v = Some c /\ lower c).
 Proof.
+  rewrite checkFragment_unfold. unfold valid_label, len.
   destruct (frag_shape v) as [->|[[c ->]|(c & m & d & ->)]].
-  - cbn. destruct isRoot; cbn; intuition (try discriminate; try congruence).
+  - cbn. destruct isRoot; intuition lia.
   - cbn [nth length Nat.sub skipn firstn forallb head last].
-    rewrite isAlNum_spec. destruct isRoot.
-    + rewrite lower_spec. split.
-      * intros (Hl & _ & Hc & Hn). right. repeat split; try discriminate; try congruence.
-        -- constructor; [assumption|constructor].
-        -- intros _. eauto.
-      * intros [[? []]|(_ & HF & Hh & _ & Hr)]. destruct (Hr eq_refl) as (c' & [= <-] & Hl).
-        apply Forall_cons_1 in HF as [Hc _]. repeat split; try assumption. congruence.
-    + rewrite isAlNum_spec. split.
-      * intros ([Hc Hn] & _ & _). right. repeat split; try discriminate; try congruence.
-        constructor; [assumption|constructor].
-      * intros [[? []]|(_ & HF & Hh & _ & _)].
-        apply Forall_cons_1 in HF as [Hc _]. repeat split; try assumption; congruence.
-  - destruct (frag_parts c m d) as (-> & -> & -> & -> & -> & _).
+    rewrite Forall_singleton, !some_neq, ex_some.
+    destruct isRoot; rewrite ?lower_spec, !isAlNum_spec; unfold label_char, lower, digit;
+      intuition (try lia; try discriminate).
+  - destruct (frag_parts c m d) as (-> & -> & -> & -> & -> & ->).
     rewrite (forallb_Forall _ label_char) by apply midchar_spec.
-    rewrite isAlNum_spec.
-    assert (HFa : Forall label_char (c :: m ++ [d]) <->
-                  label_char c /\ Forall label_char m /\ label_char d).
-    { rewrite Forall_cons, Forall_app, Forall_singleton. tauto. }
-    rewrite HFa. destruct isRoot.
-    + rewrite lower_spec. split.
-      * intros (Hl & Hm & Hd & Hn). right. repeat split; try discriminate; try congruence; try tauto.
-        -- left. assumption.
-        -- unfold lower in Hl. intros [= ->]. lia.
-        -- intros _. eauto.
-      * intros [[? []]|(_ & (Hc & Hm & Hd) & Hh & Hl & Hr)].
-        destruct (Hr eq_refl) as (c' & [= <-] & Hlo). repeat split; try assumption. congruence.
-    + rewrite isAlNum_spec. split.
-      * intros ((Hc & Hn) & Hm & Hd & Hn'). right.
-        repeat split; try discriminate; try congruence; try tauto.
-      * intros [[? []]|(_ & (Hc & Hm & Hd) & Hh & Hl & _)].
-        repeat split; try assumption; congruence.
+    rewrite Forall_cons, Forall_app, Forall_singleton, !some_neq, ex_some.
+    destruct isRoot; rewrite ?lower_spec, !isAlNum_spec; unfold label_char, lower, digit;
+      intuition (try lia; try discriminate).
 Qed.
 
 Lemma checkFragment_label v : checkFragment v false = true <-> valid_label v.
-Proof.
-  rewrite checkFragment_unfold, fragment_chars. unfold valid_label, len. split.
-  - intros (Hl & [[_ []]|(Hne & HF & Hh & Hla & _)]). repeat split; try assumption; lia.
-  - intros (Hl & HF & Hh & Hla). split; [lia|]. right.
-    repeat split; try assumption; [|discriminate]. destruct v; [simpl in Hl; lia|discriminate].
-Qed.
+Proof. rewrite fragment_ok. intuition discriminate. Qed.
 
 Lemma checkFragment_tld v : checkFragment v true = true <-> valid_tld v.
-Proof.
-  rewrite checkFragment_unfold, fragment_chars. unfold valid_tld, valid_label, len. split.
-  - intros (Hl & [[_ []]|(Hne & HF & Hh & Hla & Hr)]).
-    repeat split; try assumption; try lia. apply Hr. reflexivity.
-  - intros ((Hl & HF & Hh & Hla) & Hl16 & Hr). split; [lia|]. right.
-    repeat split; try assumption; [|intros _; assumption].
-    destruct v; [simpl in Hl; lia|discriminate].
-Qed.
+Proof. rewrite fragment_ok. unfold valid_tld. tauto. Qed.
 
 (** The loop = "all but the last are labels, the last is a TLD". *)
 Lemma check_fragments_spec fs i l :
